@@ -1,4 +1,4 @@
-(* SignalMon.v -- the monitor of MT/SignalModel.v (same-scope hand-off reading, full = false) accepts every
+(* SignalMon.v -- the monitor of MT/SignalModel.v (full-strength hand-off, full = true) accepts every
    label sequence the transition system accepts: simulation between model states and monitor states. *)
 From Coq Require Import List ZArith Bool Lia.
 From Ivv Require Import MT.SignalModel MT.SignalProofs MT.SignalFacts.
@@ -197,10 +197,15 @@ Proof.
       - exfalso. rewrite HL in Eh. inversion Eh. apply Hu. assumption. }
     intros u id' Hin. simpl in *.
     destruct (negb (total s (i_sig r0) - 1 =? 0) && i_excl r0 && i_active r0).
-    + destruct (upd_stage_cases (stg s) (i_thr r0) (SUnreg (wake_plan (scope_of r0) (i_sig r0) (remove id (regs s)))) u) as [[E Eu]|[E Eu]];
+    + destruct (upd_stage_cases (stg s) (i_thr r0) (SUnreg (handoff_wake true r0 (remove id (regs s)))) u) as [[E Eu]|[E Eu]];
         rewrite E in *.
-      * simpl in Hin. rewrite (wake_plan_sel _ _ _ (sorted_remove _ _ (inv_sorted s HR))) in Hin.
-        destruct (sel_plan_find _ _ _ _ (nodup_remove _ _ (inv_nodup s HR)) Hin) as [r [Hr _]]. exists r. split; [exact Hr|exact I].
+      * simpl in Hin. rewrite (handoff_wake_plan true r0 _ (sorted_remove _ _ (inv_sorted s HR))) in Hin.
+        unfold handoff_plan in Hin.
+        assert (Hreg : forall sc, In id' (sel_plan sc (i_sig r0) (remove id (regs s))) -> exists r, find id' (remove id (regs s)) = Some r).
+        { intros sc Hs. destruct (sel_plan_find _ _ _ _ (nodup_remove _ _ (inv_nodup s HR)) Hs) as [r [Hr _]]. exists r. exact Hr. }
+        destruct (sel_plan (scope_of r0) (i_sig r0) (remove id (regs s))) as [|q qs] eqn:Es.
+        { destruct (true && i_tt r0); [|contradiction]. destruct (Hreg None Hin) as [r Hr]. exists r. split; [exact Hr|exact I]. }
+        { rewrite <- Es in Hin. destruct (Hreg _ Hin) as [r Hr]. exists r. split; [exact Hr|exact I]. }
       * apply Hoth; assumption.
     + destruct (Z.eq_dec u (i_thr r0)) as [->|Hu]; [|apply Hoth; assumption].
       destruct (stg s (i_thr r0)); simpl in Ei; try discriminate. simpl in Hin. contradiction.
@@ -269,7 +274,7 @@ Lemma sim_lock_only : forall s m o, Sim s m -> Sim (with_lock s o) m.
 Proof. intros s m o [S1 S2 S3 S4 S5]. constructor; simpl; auto. Qed.
 
 Lemma sim_step_lock : forall s m t s', Inv s -> Sim s m -> step s (LLock t) = Some s' ->
-  exists m', mstep false m (LLock t) = Some m' /\ Sim s' m'.
+  exists m', mstep true m (LLock t) = Some m' /\ Sim s' m'.
 Proof.
   intros s m t s' [HR _] HS H. pose proof (sim_exp s m HS t) as He. simpl in H |- *.
   destruct (lock s); [discriminate|]. destruct (stg s t) eqn:Est; try discriminate; inversion H; subst; clear H; simpl in He; rewrite He.
@@ -279,7 +284,7 @@ Proof.
 Qed.
 
 Lemma sim_step_unlock : forall s m t s', Sim s m -> step s (LUnlock t) = Some s' ->
-  exists m', mstep false m (LUnlock t) = Some m' /\ Sim s' m'.
+  exists m', mstep true m (LUnlock t) = Some m' /\ Sim s' m'.
 Proof.
   intros s m t s' HS H. pose proof (sim_exp s m HS t) as He. simpl in H |- *.
   destruct (holds s t); [|discriminate].
@@ -295,7 +300,7 @@ Lemma brun_eq : forall s, brun s = bget (fun r => negb (phase_eqb (i_phase r) PI
 
 Lemma sim_step_reg : forall s m t id sig x tt a sa s', Inv s -> Sim s m ->
   step s (LReg t id sig x tt a sa) = Some s' ->
-  exists m', mstep false m (LReg t id sig x tt a sa) = Some m' /\ Sim s' m'.
+  exists m', mstep true m (LReg t id sig x tt a sa) = Some m' /\ Sim s' m'.
 Proof.
   intros s m t id sig x tt a sa s' [HR _] HS H. destruct HS as [S1 S2 S3 S4 S5]. simpl in H |- *.
   destruct (holds s t && is_idle (stg s t) && (0 <=? sig) && (sig <? 64)); [|discriminate].
@@ -318,12 +323,15 @@ Proof.
   - exact S5.
 Qed.
 
-Lemma handoff_plan_false : forall r rest, handoff_plan false r rest = sel_plan (scope_of r) (i_sig r) rest.
-Proof. intros. unfold handoff_plan. destruct (sel_plan (scope_of r) (i_sig r) rest); reflexivity. Qed.
+Lemma strip_handoff_plan : forall b r l, handoff_plan b (strip r) (map strip l) = handoff_plan b r l.
+Proof.
+  intros. unfold handoff_plan. change (scope_of (strip r)) with (scope_of r). change (i_sig (strip r)) with (i_sig r).
+  change (i_tt (strip r)) with (i_tt r). rewrite !strip_sel_plan. reflexivity.
+Qed.
 
 Lemma sim_step_unreg : forall s m t id sa s', Inv s -> Sim s m ->
   step s (LUnreg t id sa) = Some s' ->
-  exists m', mstep false m (LUnreg t id sa) = Some m' /\ Sim s' m'.
+  exists m', mstep true m (LUnreg t id sa) = Some m' /\ Sim s' m'.
 Proof.
   intros s m t id sa s' [HR _] HS H. destruct HS as [S1 S2 S3 S4 S5]. simpl in H |- *.
   destruct (holds s t && is_idle (stg s t)) eqn:E0; [|discriminate]. apply andb_true_iff in E0. destruct E0 as [_ Ei].
@@ -341,9 +349,8 @@ Proof.
   - intro id'. rewrite mem_del, S4, !brun_eq. simpl. rewrite bget_remove. destruct (id' =? id); simpl; [apply andb_false_r|apply andb_true_r].
   - rewrite Hact. change (i_excl (strip r)) with (i_excl r).
     destruct (negb (total s (i_sig r) - 1 =? 0) && i_excl r && i_active r); [|exact S5].
-    apply rel_upd; [|exact S5]. simpl. rewrite handoff_plan_false.
-    change (scope_of (strip r)) with (scope_of r). change (i_sig (strip r)) with (i_sig r).
-    rewrite strip_sel_plan. rewrite (wake_plan_sel _ _ _ (sorted_remove _ _ (inv_sorted s HR))). reflexivity.
+    apply rel_upd; [|exact S5]. simpl. rewrite strip_handoff_plan.
+    rewrite (handoff_wake_plan true r _ (sorted_remove _ _ (inv_sorted s HR))). reflexivity.
 Qed.
 
 Lemma disp_count : forall s sig, InvR s -> disp s sig = negb (count_sig sig (map strip (regs s)) =? 0).
@@ -351,7 +358,7 @@ Proof. intros s sig HR. rewrite strip_count. apply (inv_disp s HR). Qed.
 
 Lemma sim_step_sigenter : forall s m t sig c s', reachable s -> Sim s m ->
   step s (LSigEnter t sig c) = Some s' ->
-  exists m', mstep false m (LSigEnter t sig c) = Some m' /\ Sim s' m'.
+  exists m', mstep true m (LSigEnter t sig c) = Some m' /\ Sim s' m'.
 Proof.
   intros s m t sig c s' R HS H. destruct (reachable_inv s R) as [HR _].
   pose proof (sim_exp s m HS t) as He. pose proof (sim_regs s m HS) as S1.
@@ -370,7 +377,7 @@ Proof.
 Qed.
 
 Lemma sim_step_sigdfl : forall s m t sig s', Inv s -> Sim s m -> step s (LSigDfl t sig) = Some s' ->
-  exists m', mstep false m (LSigDfl t sig) = Some m' /\ Sim s' m'.
+  exists m', mstep true m (LSigDfl t sig) = Some m' /\ Sim s' m'.
 Proof.
   intros s m t sig s' [HR _] HS H. simpl in H |- *. destruct (disp s sig) eqn:Ed; [discriminate|].
   injection H as <-. rewrite (sim_regs s m HS). rewrite (disp_count s sig HR) in Ed.
@@ -395,7 +402,7 @@ Proof.
 Qed.
 
 Lemma sim_step_post : forall s m t id s', Inv s -> InvP s -> Sim s m -> step s (LPost t id) = Some s' ->
-  exists m', mstep false m (LPost t id) = Some m' /\ Sim s' m'.
+  exists m', mstep true m (LPost t id) = Some m' /\ Sim s' m'.
 Proof.
   intros s m t id s' [HR _] HP HS H. pose proof (sim_exp s m HS t) as He. pose proof (HP t id) as Hp.
   simpl in H |- *.
@@ -407,7 +414,7 @@ Proof.
 Qed.
 
 Lemma sim_step_sigexit : forall s m t s', Sim s m -> step s (LSigExit t) = Some s' ->
-  exists m', mstep false m (LSigExit t) = Some m' /\ Sim s' m'.
+  exists m', mstep true m (LSigExit t) = Some m' /\ Sim s' m'.
 Proof.
   intros s m t s' HS H. pose proof (sim_exp s m HS t) as He. simpl in H |- *.
   destruct (stg s t) as [|[|]| | | |] eqn:Est; try discriminate; inversion H; subst; clear H; simpl in He.
@@ -422,7 +429,7 @@ Qed.
 Ltac sim_fields := cbn [m_regs m_act m_owed m_run m_exp regs stg with_regs].
 
 Lemma sim_step_read : forall s m t id s', Sim s m -> step s (LRead t id) = Some s' ->
-  exists m', mstep false m (LRead t id) = Some m' /\ Sim s' m'.
+  exists m', mstep true m (LRead t id) = Some m' /\ Sim s' m'.
 Proof.
   intros s m t id s' HS H. destruct HS as [S1 S2 S3 S4 S5]. simpl in H |- *.
   destruct (find id (regs s)) as [r|] eqn:Ef; [|discriminate].
@@ -442,7 +449,7 @@ Proof.
 Qed.
 
 Lemma sim_step_clear : forall s m t id s', Sim s m -> step s (LClear t id) = Some s' ->
-  exists m', mstep false m (LClear t id) = Some m' /\ Sim s' m'.
+  exists m', mstep true m (LClear t id) = Some m' /\ Sim s' m'.
 Proof.
   intros s m t id s' HS H. destruct HS as [S1 S2 S3 S4 S5]. simpl in H |- *.
   destruct (find id (regs s)) as [r|] eqn:Ef; [|discriminate].
@@ -461,7 +468,7 @@ Proof.
 Qed.
 
 Lemma sim_step_handler : forall s m t id s', Sim s m -> step s (LHandler t id) = Some s' ->
-  exists m', mstep false m (LHandler t id) = Some m' /\ Sim s' m'.
+  exists m', mstep true m (LHandler t id) = Some m' /\ Sim s' m'.
 Proof.
   intros s m t id s' HS H. destruct HS as [S1 S2 S3 S4 S5]. simpl in H |- *.
   destruct (find id (regs s)) as [r|] eqn:Ef; [|discriminate].
@@ -481,7 +488,7 @@ Proof.
 Qed.
 
 Lemma sim_step_block : forall s m t s', Inv s -> Sim s m -> step s (LBlock t) = Some s' ->
-  exists m', mstep false m (LBlock t) = Some m' /\ Sim s' m'.
+  exists m', mstep true m (LBlock t) = Some m' /\ Sim s' m'.
 Proof.
   intros s m t s' [HR _] HS H. simpl in H |- *.
   destruct (is_idle (stg s t) && quiet_thread t (regs s)) eqn:E; [|discriminate]. injection H as <-.
@@ -497,7 +504,7 @@ Proof.
 Qed.
 
 Theorem sim_step : forall s m l s', reachable s -> InvP s -> Sim s m -> step s l = Some s' ->
-  exists m', mstep false m l = Some m' /\ Sim s' m'.
+  exists m', mstep true m l = Some m' /\ Sim s' m'.
 Proof.
   intros s m l s' R HP HS H. pose proof (reachable_inv s R) as HI. destruct l.
   - eapply sim_step_lock; eauto.
@@ -521,7 +528,7 @@ Lemma invP_init : InvP init.
 Proof. intros t id H. simpl in H. contradiction. Qed.
 
 Lemma sim_run_all : forall ls s m s', reachable s -> InvP s -> Sim s m -> run s ls = Some s' ->
-  exists m', mrun false m ls = Some m' /\ Sim s' m'.
+  exists m', mrun true m ls = Some m' /\ Sim s' m'.
 Proof.
   induction ls as [|l r IH]; simpl; intros s m s' R HP HS H.
   - injection H as <-. exists m. split; [reflexivity|exact HS].
@@ -530,10 +537,10 @@ Proof.
     apply (IH s1 m1 s'); [eapply reachable_step; eauto|apply (invP_step s l s1); [apply reachable_inv; exact R|exact HP|exact E]|exact HS1|exact H].
 Qed.
 
-(* every label sequence accepted by the transition system satisfies the monitor (same-scope hand-off) *)
-Theorem monitor_accepts : forall ls, accepts ls = true -> monitor false ls = true.
+(* every label sequence accepted by the transition system satisfies the full-strength monitor *)
+Theorem monitor_accepts : forall ls, accepts ls = true -> monitor true ls = true.
 Proof.
-  intros ls H. unfold accepts in H. destruct (run init ls) as [s|] eqn:E; [|discriminate].
+  intros ls H. unfold accepts, accepts_gen in H. destruct (run init ls) as [s|] eqn:E; [|discriminate].
   destruct (sim_run_all ls init minit s) as [m [Hm _]]; [exists []; reflexivity|apply invP_init|apply sim_init|exact E|].
   unfold monitor. rewrite Hm. reflexivity.
 Qed.
